@@ -636,6 +636,237 @@ pub proof fn lemma_find_name(m: Seq<(Seq<u8>, Entry)>, k: Seq<u8>)
     }
 }
 
+// ================= printing (C10) =================
+use std::fmt;
+pub uninterp spec fn fout(f: &fmt::Formatter) -> Seq<char>;
+#[verifier::external_body]
+fn shim_fmt_str(f: &mut fmt::Formatter, s: &str) -> (r: fmt::Result)
+    ensures r is Ok ==> fout(final(f)) == fout(old(f)) + s@
+{ f.write_str(s) }
+pub open spec fn digest_name(d: Digest) -> Seq<char> {
+    match d { Digest::BLAKE2s => "BLAKE2s"@, Digest::MD5 => "MD5"@, Digest::RMD160 => "RMD160"@, Digest::SHA1 => "SHA1"@, Digest::SHA256 => "SHA256"@, Digest::SHA512 => "SHA512"@ }
+}
+impl Digest {
+//@ extract src/digest.rs : impl fmt::Display for Digest fn fmt
+//@ rewrite D8.write_lit
+    fn fmt(&self, f: &mut fmt::Formatter) -> (r: fmt::Result)
+        ensures r is Ok ==> fout(final(f)) == fout(old(f)) + digest_name(*self)
+    {
+        match self {
+            Digest::BLAKE2s => write!(f, "BLAKE2s"),
+            Digest::MD5 => write!(f, "MD5"),
+            Digest::RMD160 => write!(f, "RMD160"),
+            Digest::SHA1 => write!(f, "SHA1"),
+            Digest::SHA256 => write!(f, "SHA256"),
+            Digest::SHA512 => write!(f, "SHA512"),
+        }
+    }
+//@ end
+}
+/// decimal text of a u64 as printed by `{}` (assumed to re-parse to the same value)
+pub uninterp spec fn u64_text(n: int) -> Seq<char>;
+pub axiom fn axiom_u64_text(n: u64) ensures u64_text_value(u64_text(n as int)) == Some(n as int), is_ascii_chars(u64_text(n as int));
+// shims D8.format_*: format!(..).as_bytes() with `{}` = Display of the argument (Digest::fmt above is proved to print digest_name)
+#[verifier::external_body]
+fn shim_fmt_digest_open(d: &Digest) -> (r: Vec<u8>)
+    ensures r@ == encode_utf8(digest_name(*d)) + seq![0x20u8, 0x28u8]
+{ unimplemented!() /* format!("{} (", d).into_bytes(): Display for Digest is the inherent Digest::fmt in this unit */ }
+#[verifier::external_body]
+fn shim_fmt_close_hash(h: &String) -> (r: Vec<u8>)
+    ensures r@ == seq![0x29u8, 0x20u8, 0x3du8, 0x20u8] + encode_utf8(h@) + seq![0x0au8]
+{ format!(") = {}\n", h).into_bytes() }
+#[verifier::external_body]
+fn shim_fmt_close_size(n: u64) -> (r: Vec<u8>)
+    ensures r@ == seq![0x29u8, 0x20u8, 0x3du8, 0x20u8] + encode_utf8(u64_text(n as int)) + BYTES_NL()
+{ format!(") = {} bytes\n", n).into_bytes() }
+#[verifier::external_body]
+fn shim_path_bytes<'a>(p: &'a Path) -> (r: &'a [u8])
+    ensures r@ == pab(p)
+{ p.as_os_str().as_bytes() }
+#[verifier::external_body]
+fn shim_osstring_bytes<'a>(s: &'a OsString) -> (r: &'a [u8])
+    ensures r@ == osbs(s)
+{ s.as_bytes() }
+#[verifier::external_body]
+fn shim_imap_values<'a>(m: &'a IndexMap<PathBuf, Entry>) -> (r: Vec<&'a Entry>)
+    ensures r@.len() == m.view().len(), forall|i: int| 0 <= i < r@.len() ==> *(#[trigger] r@[i]) == m.view()[i].1
+{ unimplemented!() }
+
+pub open spec fn BYTES_NL() -> Seq<u8> { seq![0x20u8, 0x62u8, 0x79u8, 0x74u8, 0x65u8, 0x73u8, 0x0au8] }     // " bytes\n"
+pub open spec fn SIZE_OPEN() -> Seq<u8> { seq![0x53u8, 0x69u8, 0x7au8, 0x65u8, 0x20u8, 0x28u8] }              // "Size ("
+pub open spec fn NETBSD_ID() -> Seq<u8> { seq![0x24u8, 0x4eu8, 0x65u8, 0x74u8, 0x42u8, 0x53u8, 0x44u8, 0x24u8] }   // "$NetBSD$"
+/// 'ALGORITHM (name) = hash\n' with the name as its raw bytes
+pub open spec fn sum_line(name: Seq<u8>, d: Digest, h: Seq<char>) -> Seq<u8> {
+    encode_utf8(digest_name(d)) + seq![0x20u8, 0x28u8] + name + seq![0x29u8, 0x20u8, 0x3du8, 0x20u8] + encode_utf8(h) + seq![0x0au8]
+}
+pub open spec fn size_line(name: Seq<u8>, n: int) -> Seq<u8> {
+    SIZE_OPEN() + name + seq![0x29u8, 0x20u8, 0x3du8, 0x20u8] + encode_utf8(u64_text(n)) + BYTES_NL()
+}
+pub open spec fn sum_lines(name: Seq<u8>, sums: Seq<(Digest, Seq<char>)>, n: int) -> Seq<u8> decreases n {
+    if n <= 0 || n > sums.len() { Seq::<u8>::empty() } else { sum_lines(name, sums, n - 1) + sum_line(name, sums[n - 1].0, sums[n - 1].1) }
+}
+pub open spec fn entry_block(e: EntryV, with_size: bool) -> Seq<u8> {
+    sum_lines(e.name, e.sums, e.sums.len() as int) + (if with_size && e.size is Some { size_line(e.name, e.size->Some_0) } else { Seq::<u8>::empty() })
+}
+pub open spec fn blocks(m: Seq<EntryV>, n: int, with_size: bool) -> Seq<u8> decreases n {
+    if n <= 0 || n > m.len() { Seq::<u8>::empty() } else { blocks(m, n - 1, with_size) + entry_block(m[n - 1], with_size) }
+}
+/// canonical layout: RCS Id line, blank line, distfile blocks (checksums then size), patch blocks (checksums only)
+pub open spec fn print_distinfo(v: DistinfoV) -> Seq<u8> {
+    (match v.rcsid { Some(s) => s, None => NETBSD_ID() }) + seq![0x0au8, 0x0au8] + blocks(v.dist, v.dist.len() as int, true) + blocks(v.patch, v.patch.len() as int, false)
+}
+pub proof fn lemma_print_lits()
+    ensures "Size (".spec_bytes() == SIZE_OPEN(), "$NetBSD$".spec_bytes() == NETBSD_ID(), "\n\n".spec_bytes() == seq![0x0au8, 0x0au8]
+{
+    reveal_strlit("Size ("); reveal_strlit("$NetBSD$"); reveal_strlit("\n\n");
+    assert("Size (".spec_bytes() == encode_utf8("Size ("@)); assert("$NetBSD$".spec_bytes() == encode_utf8("$NetBSD$"@)); assert("\n\n".spec_bytes() == encode_utf8("\n\n"@));
+    assert(is_ascii_chars("Size ("@)); is_ascii_chars_encode_utf8("Size ("@);
+    assert(is_ascii_chars("$NetBSD$"@)); is_ascii_chars_encode_utf8("$NetBSD$"@);
+    assert(is_ascii_chars("\n\n"@)); is_ascii_chars_encode_utf8("\n\n"@);
+    assert("Size (".spec_bytes() =~= SIZE_OPEN()); assert("$NetBSD$".spec_bytes() =~= NETBSD_ID()); assert("\n\n".spec_bytes() =~= seq![0x0au8, 0x0au8]);
+}
+
+//@ extract src/distinfo.rs : fn push_checksum_line
+//@ rewrite D8.format_digest_open D8.format_close_hash D6.path_as_bytes
+fn push_checksum_line(bytes: &mut Vec<u8>, filename: &Path, c: &Checksum)
+    ensures final(bytes)@ == old(bytes)@ + sum_line(pab(filename), c.digest, c.hash@)
+{
+    bytes.extend_from_slice(format!("{} (", c.digest).as_bytes());
+    bytes.extend_from_slice(filename.as_os_str().as_bytes());
+    bytes.extend_from_slice(format!(") = {}\n", c.hash).as_bytes());
+    proof { assert(bytes@ =~= old(bytes)@ + sum_line(pab(filename), c.digest, c.hash@)); }
+}
+//@ end
+//@ extract src/distinfo.rs : fn push_size_line
+//@ rewrite D8.format_close_size D6.path_as_bytes
+fn push_size_line(bytes: &mut Vec<u8>, filename: &Path, size: u64)
+    ensures final(bytes)@ == old(bytes)@ + size_line(pab(filename), size as int)
+{
+    proof { lemma_print_lits(); }
+    bytes.extend_from_slice("Size (".as_bytes());
+    bytes.extend_from_slice(filename.as_os_str().as_bytes());
+    bytes.extend_from_slice(format!(") = {} bytes\n", size).as_bytes());
+    proof { assert(bytes@ =~= old(bytes)@ + size_line(pab(filename), size as int)); }
+}
+//@ end
+
+impl Entry {
+//@ extract src/distinfo.rs : impl Entry fn as_bytes
+    pub fn as_bytes(&self) -> (r: Vec<u8>)
+        ensures r@ == entry_block(entry_v(*self), true)
+    {
+        let mut bytes = Vec::new();
+        let ghost ev = entry_v(*self);
+        for c in it: &self.checksums
+            invariant
+                ev == entry_v(*self),
+                it.snapshot@.remaining().len() == self.checksums@.len(),
+                forall|i: int| 0 <= i < self.checksums@.len() ==> *(#[trigger] it.snapshot@.remaining()[i]) == self.checksums@[i],
+                bytes@ == sum_lines(ev.name, ev.sums, it.index@ as int),
+        {
+            proof { assert(ev.sums[it.index@ as int] == (c.digest, c.hash@)); }
+            push_checksum_line(&mut bytes, &self.filename, c);
+            proof { assert(bytes@ =~= sum_lines(ev.name, ev.sums, it.index@ + 1)); }
+        }
+        proof { assert(ev.sums.len() == self.checksums@.len()); }
+        if let Some(size) = self.size {
+            push_size_line(&mut bytes, &self.filename, size);
+        }
+        bytes
+    }
+//@ end
+}
+impl Distinfo {
+//@ extract src/distinfo.rs : impl Distinfo fn rcsid
+    pub fn rcsid(&self) -> (r: Option<&OsString>)
+        ensures (match r { Some(s) => self.dv().rcsid == Some(osbs(s)), None => self.dv().rcsid is None })
+    {
+        match &self.rcsid {
+            Some(s) => Some(s),
+            None => None,
+        }
+    }
+//@ end
+//@ extract src/distinfo.rs : impl Distinfo fn as_bytes
+//@ rewrite D6.imap_values D6.osstring_as_bytes
+    pub fn as_bytes(&self) -> (r: Vec<u8>)
+        requires self.wf()
+        ensures r@ == print_distinfo(self.dv())
+    {
+        proof { lemma_print_lits(); }
+        let mut bytes = Vec::new();
+        if let Some(s) = self.rcsid() {
+            bytes.extend_from_slice(s.as_bytes());
+        } else {
+            bytes.extend_from_slice("$NetBSD$".as_bytes());
+        }
+        bytes.extend_from_slice("\n\n".as_bytes());
+        let ghost head = bytes@;
+        let ghost dvv = self.dv();
+        for q in it: self.distfiles.values()
+            invariant
+                dvv == self.dv(),
+                it.snapshot@.remaining().len() == dvv.dist.len(),
+                forall|i: int| 0 <= i < dvv.dist.len() ==> entry_v(*(#[trigger] it.snapshot@.remaining()[i])) == dvv.dist[i],
+                bytes@ == head + blocks(dvv.dist, it.index@ as int, true),
+        {
+            let ghost ev = entry_v(*q);
+            let ghost b0 = bytes@;
+            for c in it2: &q.checksums
+                invariant
+                    ev == entry_v(*q),
+                    it2.snapshot@.remaining().len() == q.checksums@.len(),
+                    forall|i: int| 0 <= i < q.checksums@.len() ==> *(#[trigger] it2.snapshot@.remaining()[i]) == q.checksums@[i],
+                    bytes@ == b0 + sum_lines(ev.name, ev.sums, it2.index@ as int),
+            {
+                proof { assert(ev.sums[it2.index@ as int] == (c.digest, c.hash@)); }
+                push_checksum_line(&mut bytes, &q.filename, c);
+                proof { assert(bytes@ =~= b0 + sum_lines(ev.name, ev.sums, it2.index@ + 1)); }
+            }
+            if let Some(size) = q.size {
+                push_size_line(&mut bytes, &q.filename, size);
+            }
+            proof {
+                assert(ev.sums.len() == q.checksums@.len());
+                assert(bytes@ == b0 + entry_block(ev, true));
+                assert(blocks(dvv.dist, it.index@ + 1, true) == blocks(dvv.dist, it.index@ as int, true) + entry_block(dvv.dist[it.index@ as int], true));
+                assert(bytes@ =~= head + blocks(dvv.dist, it.index@ + 1, true));
+            }
+        }
+        let ghost mid = bytes@;
+        for q in it: self.patchfiles.values()
+            invariant
+                dvv == self.dv(),
+                it.snapshot@.remaining().len() == dvv.patch.len(),
+                forall|i: int| 0 <= i < dvv.patch.len() ==> entry_v(*(#[trigger] it.snapshot@.remaining()[i])) == dvv.patch[i],
+                bytes@ == mid + blocks(dvv.patch, it.index@ as int, false),
+        {
+            let ghost ev = entry_v(*q);
+            let ghost b0 = bytes@;
+            for c in it2: &q.checksums
+                invariant
+                    ev == entry_v(*q),
+                    it2.snapshot@.remaining().len() == q.checksums@.len(),
+                    forall|i: int| 0 <= i < q.checksums@.len() ==> *(#[trigger] it2.snapshot@.remaining()[i]) == q.checksums@[i],
+                    bytes@ == b0 + sum_lines(ev.name, ev.sums, it2.index@ as int),
+            {
+                proof { assert(ev.sums[it2.index@ as int] == (c.digest, c.hash@)); }
+                push_checksum_line(&mut bytes, &q.filename, c);
+                proof { assert(bytes@ =~= b0 + sum_lines(ev.name, ev.sums, it2.index@ + 1)); }
+            }
+            proof {
+                assert(ev.sums.len() == q.checksums@.len());
+                assert(bytes@ == b0 + entry_block(ev, false));
+                assert(blocks(dvv.patch, it.index@ + 1, false) == blocks(dvv.patch, it.index@ as int, false) + entry_block(dvv.patch[it.index@ as int], false));
+                assert(bytes@ =~= mid + blocks(dvv.patch, it.index@ + 1, false));
+            }
+        }
+        proof { assert(bytes@ =~= print_distinfo(dvv)); }
+        bytes
+    }
+//@ end
+}
+
 /// byte-string literals used by Line::from_bytes
 pub proof fn reveal_strlit_bytes() { }
 pub proof fn lemma_nonempty_step(v: Seq<&[u8]>, i: int)
